@@ -146,8 +146,8 @@ theorem Agree.leave {outer env' : Env} {σ : Store} (h : Agree env' σ) : Agree 
 
 /-! ### execution of sequences -/
 
-theorem ExecC.append_ret {σ : Store} {c1 : Code} {t : Trace} {v : Val} (c2 : Code)
-    (h : ExecC σ c1 t (.returned v)) : ExecC σ (c1 ++ c2) t (.returned v) := by
+theorem ExecC.append_ret {P : Prog} {σ : Store} {c1 : Code} {t : Trace} {v : Val} (c2 : Code)
+    (h : ExecC P σ c1 t (.returned v)) : ExecC P σ (c1 ++ c2) t (.returned v) := by
   induction c1 generalizing σ t with
   | nil => cases h
   | cons s rest ih =>
@@ -155,8 +155,8 @@ theorem ExecC.append_ret {σ : Store} {c1 : Code} {t : Trace} {v : Val} (c2 : Co
     | consRet hs => exact .consRet hs
     | cons hs hr => exact .cons hs (ih hr)
 
-theorem ExecC.append {σ σ1 : Store} {c1 c2 : Code} {t1 t2 : Trace} {o : Outcome}
-    (h1 : ExecC σ c1 t1 (.normal σ1)) (h2 : ExecC σ1 c2 t2 o) : ExecC σ (c1 ++ c2) (t1 ++ t2) o := by
+theorem ExecC.append {P : Prog} {σ σ1 : Store} {c1 c2 : Code} {t1 t2 : Trace} {o : Outcome}
+    (h1 : ExecC P σ c1 t1 (.normal σ1)) (h2 : ExecC P σ1 c2 t2 o) : ExecC P σ (c1 ++ c2) (t1 ++ t2) o := by
   induction c1 generalizing σ t1 with
   | nil => cases h1; simpa using h2
   | cons s rest ih =>
@@ -165,13 +165,13 @@ theorem ExecC.append {σ σ1 : Store} {c1 c2 : Code} {t1 t2 : Trace} {o : Outcom
       rw [List.append_assoc]
       exact .cons hs (ih hr)
 
-theorem ExecC.single {σ : Store} {s : Stm} {t : Trace} {o : Outcome} (h : ExecS σ s t o) : ExecC σ [s] t o := by
+theorem ExecC.single {P : Prog} {σ : Store} {s : Stm} {t : Trace} {o : Outcome} (h : ExecS P σ s t o) : ExecC P σ [s] t o := by
   cases o with
   | normal σ1 => simpa using ExecC.cons h ExecC.nil
   | returned v => exact .consRet h
 
-theorem ExecC.assign1 {σ : Store} {x : Var} {v : Value} {t : Trace} {val : Val}
-    (h : evalValue σ v = some (t, val)) : ExecC σ [.assign x v] t (.normal (σ.set x val)) :=
+theorem ExecC.assign1 {P : Prog} {σ : Store} {x : Var} {v : Value} {t : Trace} {val : Val}
+    (h : EvalV P σ v t val) : ExecC P σ [.assign x v] t (.normal (σ.set x val)) :=
   ExecC.single (.assign h)
 
 /-! ### static facts about the lowering: the counter only grows, `Move`s name temporaries below it -/
@@ -363,7 +363,10 @@ theorem lowerE_mono : ∀ (e : Expr) (c : Nat) (code : Code) (v : Value) (c' : N
       have ⟨m1, b1⟩ := lowerE_mono e c ce ve c1 h1
       have ⟨a1, _⟩ := atv_spec ve c1 b1
       exact ⟨by omega, trivial⟩
-  | .call .., _, _, _, _, h => by simp [lowerE] at h
+  | .call f args, c, code, v, c', h => by
+    simp [lowerE, Option.bind_eq_some_iff] at h
+    obtain ⟨a, b, c1, h1, _, rfl, rfl⟩ := h
+    exact ⟨(lowerArgs_mono args c a b c1 h1).1, trivial⟩
   | .mtch s isOpt arms, c, code, v, c', h => by
     obtain ⟨_, ce, ve, c1, ch0, c0, ch1, c1', ch2, c2, dflt, c3, codes, h1, h2, h3, h4, h5, h6, _, rfl⟩ := lowerE_mtch_inv h
     have ⟨m1, b1⟩ := lowerE_mono s c ce ve c1 h1
@@ -492,6 +495,7 @@ def Value.vars : Value → List Var
   | .not x => [x]
   | .neg x => [x]
   | .callRt _ args => args
+  | .call _ args => args
   | .disc x => [x]
   | .cloneProj x _ _ => [x]
   | .cloneField x _ => [x]
@@ -506,6 +510,7 @@ theorem evalValue_congr {σ σ' : Store} {v : Value} (h : ∀ x ∈ v.vars, σ' 
   | callRt f args =>
     have : args.map σ' = args.map σ := List.map_congr_left (by simpa [Value.vars] using h)
     simp [evalValue, this]
+  | call f args => simp [evalValue]
   | _ => simp_all [evalValue, Value.vars]
 
 theorem evalValue_set_fresh {σ : Store} {v : Value} {c k : Nat} (w : Val) (hb : ValueBound v c) (hk : c ≤ k) :
@@ -517,6 +522,21 @@ theorem evalValue_set_fresh {σ : Store} {v : Value} {c k : Nat} (w : Val) (hb :
   subst hxe
   have := hb k hx
   omega
+
+theorem EvalV.set_fresh {P : Prog} {σ : Store} {v : Value} {c k : Nat} {t : Trace} {val : Val} (w : Val)
+    (hb : ValueBound v c) (hk : c ≤ k) (h : EvalV P σ v t val) : EvalV P (σ.set (.t k) w) v t val := by
+  cases h with
+  | pure h => exact .pure (by rw [evalValue_set_fresh w hb hk]; exact h)
+  | call hp hbnd hx =>
+    refine .call hp ?_ hx
+    rw [← hbnd]
+    congr 1
+    apply List.map_congr_left
+    intro x hx'
+    apply set_other
+    intro hxe; subst hxe
+    have := hb k (by simpa [Value.vars] using hx')
+    omega
 
 theorem atv_bound (v : Value) (c : Nat) (hb : MoveBound v c) {k : Nat} (h : atvVar v c = .t k) : k < atvNext v c := by
   obtain ⟨_, k', hk', hlt⟩ := atv_spec v c hb
@@ -622,7 +642,11 @@ theorem lowerE_valueBound (e : Expr) (c : Nat) (code : Code) (v : Value) (c' : N
     simp [lowerE, Option.bind_eq_some_iff] at h
     obtain ⟨_, _, _, _, _, rfl, _⟩ := h
     simp [Value.vars] at hk
-  | call f args => simp [lowerE] at h
+  | call f args =>
+    simp [lowerE, Option.bind_eq_some_iff] at h
+    obtain ⟨a, b, c1, h1, _, rfl, rfl⟩ := h
+    obtain ⟨_, rfl', _, hlt⟩ := (lowerArgs_mono args c a b c1 h1).2 _ (by simpa [Value.vars] using hk)
+    cases rfl'; exact hlt
   | mtch s isOpt arms =>
     have hm := (lowerE_mono _ c code v c' h).2
     obtain ⟨_, _, _, _, _, _, _, _, _, _, _, _, _, _, _, _, _, _, _, _, rfl⟩ := lowerE_mtch_inv h
@@ -659,9 +683,9 @@ theorem payload_fieldsOf {v : Val} (h : (discOf v).isSome) (i : Nat) : payload v
   | _ => simp [discOf] at h
 
 /-- the binders of a pattern, assigned from the examinee's fields -/
-theorem exec_binds {ke tag : Nat} : ∀ (bs : List Nat) (fs : List Int) (env env1 : Env) (σ : Store) (j : Nat),
+theorem exec_binds {P : Prog} {ke tag : Nat} : ∀ (bs : List Nat) (fs : List Int) (env env1 : Env) (σ : Store) (j : Nat),
     (∀ i, payload (σ (.t ke)) (j + i) = fs[i]?) → bindAll bs fs env = some env1 → Agree env σ →
-    ∃ σ1, ExecC σ (bindsCode bs (.t ke) tag j) [] (.normal σ1) ∧ Agree env1 σ1 ∧ (∀ k, σ1 (.t k) = σ (.t k))
+    ∃ σ1, ExecC P σ (bindsCode bs (.t ke) tag j) [] (.normal σ1) ∧ Agree env1 σ1 ∧ (∀ k, σ1 (.t k) = σ (.t k))
   | [], fs, env, env1, σ, j, hp, hb, ha => by
     cases fs with
     | nil => simp [bindAll] at hb; subst hb; exact ⟨σ, .nil, ha, fun _ => rfl⟩
@@ -676,23 +700,23 @@ theorem exec_binds {ke tag : Nat} : ∀ (bs : List Nat) (fs : List Int) (env env
       | none =>
         simp only [hl] at hb
         have h0 : payload (σ (.t ke)) j = some f := by simpa using hp 0
-        have s1 : ExecS σ (.assign (.x b) (.cloneProj (.t ke) j tag)) [] (.normal (σ.set (.x b) (.int f))) :=
-          .assign (by simp [evalValue, h0])
+        have s1 : ExecS P σ (.assign (.x b) (.cloneProj (.t ke) j tag)) [] (.normal (σ.set (.x b) (.int f))) :=
+          .assign (EvalV.pure (by simp [evalValue, h0]))
         have hxe : (σ.set (.x b) (.int f)) (.t ke) = σ (.t ke) := set_other _ _ (by intro h; cases h)
-        obtain ⟨σ1, hx, ha1, hk⟩ := exec_binds bs fs ((b, .int f) :: env) env1 (σ.set (.x b) (.int f)) (j + 1)
+        obtain ⟨σ1, hx, ha1, hk⟩ := exec_binds (P := P) bs fs ((b, .int f) :: env) env1 (σ.set (.x b) (.int f)) (j + 1)
           (by intro i; rw [hxe]; have := hp (i + 1); simpa [Nat.add_assoc, Nat.add_comm 1 i] using this) hb (ha.cons b _)
         refine ⟨σ1, ?_, ha1, fun k => by rw [hk k]; exact set_other _ _ (by intro h; cases h)⟩
         simpa [bindsCode] using ExecC.cons s1 hx
 
 /-- … of a whole pattern -/
-theorem exec_patBinds {ke tb : Nat} (p : Pat) (v : Val) (env env1 : Env) (σ : Store)
+theorem exec_patBinds {P : Prog} {ke tb : Nat} (p : Pat) (v : Val) (env env1 : Env) (σ : Store)
     (hv : σ (.t ke) = v) (hd : (discOf v).isSome) (hb : bindPat env v p = some env1) (ha : Agree env σ) :
-    ∃ σ1, ExecC σ (patBinds p (.t ke) tb) [] (.normal σ1) ∧ Agree env1 σ1 ∧ (∀ k, σ1 (.t k) = σ (.t k)) := by
+    ∃ σ1, ExecC P σ (patBinds p (.t ke) tb) [] (.normal σ1) ∧ Agree env1 σ1 ∧ (∀ k, σ1 (.t k) = σ (.t k)) := by
   cases p with
   | wild => simp [bindPat] at hb; subst hb; exact ⟨σ, by simpa [patBinds] using ExecC.nil, ha, fun _ => rfl⟩
   | variant k bs =>
     simp only [bindPat] at hb
-    simpa [patBinds] using exec_binds (tag := tb + k) bs (fieldsOf v) env env1 σ 0
+    simpa [patBinds] using exec_binds (P := P) (tag := tb + k) bs (fieldsOf v) env env1 σ 0
       (by intro i; rw [hv]; simpa using payload_fieldsOf hd i) hb ha
 
 def patsOf : Arms → List Pat
@@ -736,9 +760,9 @@ theorem not_hasWild : ∀ (arms : Arms), hasWild arms = false → Pat.wild ∉ p
 
 /-! ### `make_enum`: moving the materialised arguments into the fields -/
 
-theorem exec_storeFields {k : Nat} {to : Var} : ∀ (xs : List Var) (fs : List Int) (pre : List Int) (σ : Store),
+theorem exec_storeFields {P : Prog} {k : Nat} {to : Var} : ∀ (xs : List Var) (fs : List Int) (pre : List Int) (σ : Store),
     σ to = .enm k (pre ++ List.replicate xs.length 0) → (∀ x ∈ xs, x ≠ to) → xs.map σ = fs.map Val.int →
-    ∃ σ1, ExecC σ (storeFields to pre.length xs) [] (.normal σ1) ∧ σ1 to = .enm k (pre ++ fs)
+    ∃ σ1, ExecC P σ (storeFields to pre.length xs) [] (.normal σ1) ∧ σ1 to = .enm k (pre ++ fs)
       ∧ (∀ y, y ≠ to → σ1 y = σ y)
   | [], fs, pre, σ, hσ, _, hm => by
     cases fs with
@@ -752,14 +776,14 @@ theorem exec_storeFields {k : Nat} {to : Var} : ∀ (xs : List Var) (fs : List I
       obtain ⟨hx, hm'⟩ := hm
       have hset : setPayload (σ to) pre.length f = some (.enm k (pre ++ f :: List.replicate xs.length 0)) := by
         rw [hσ]; simp [setPayload, List.replicate_succ]
-      have s1 : ExecS σ (.assignField to pre.length (.move x)) [] (.normal (σ.set to (.enm k (pre ++ f :: List.replicate xs.length 0)))) :=
-        .assignField (by simp [evalValue, hx]) hset
+      have s1 : ExecS P σ (.assignField to pre.length (.move x)) [] (.normal (σ.set to (.enm k (pre ++ f :: List.replicate xs.length 0)))) :=
+        .assignField (EvalV.pure (by simp [evalValue, hx])) hset
       have hmap : xs.map (σ.set to (.enm k (pre ++ f :: List.replicate xs.length 0))) = fs.map Val.int := by
         rw [← hm']
         apply List.map_congr_left
         intro y hy
         exact set_other _ _ (hne y (by simp [hy]))
-      obtain ⟨σ1, hx1, hv1, hk1⟩ := exec_storeFields (k := k) (to := to) xs fs (pre ++ [f]) (σ.set to (.enm k (pre ++ f :: List.replicate xs.length 0)))
+      obtain ⟨σ1, hx1, hv1, hk1⟩ := exec_storeFields (P := P) (k := k) (to := to) xs fs (pre ++ [f]) (σ.set to (.enm k (pre ++ f :: List.replicate xs.length 0)))
         (by simp) (fun y hy => hne y (by simp [hy])) hmap
       refine ⟨σ1, ?_, by simpa using hv1, fun y hy => by rw [hk1 y hy, set_other _ _ hy]⟩
       have := ExecC.cons s1 hx1
